@@ -13,8 +13,8 @@ PROPERTY = 'C20'
 LEVEL = 'fault_enumeration'
 RULE = ('fault mode {exit 1 silent / with error text, exit 0 empty, exit 2 usage, truncated "O", OK followed by text on the same line, FAIL (exit 1 / exit 0), garbled bytes (incl. 6 byte strings that collapse to a bare OK line when undecodable bytes are dropped / replaced / stripped), '
         '"NOT OK", OK inside other words, OK set off inside one line by CR / VT / FF / RS / NEL / LINE SEPARATOR (error exit), lower-case ok, SIGKILL / SIGSEGV / SIGTERM before output, signal after doing the work, no output file, empty output file, partial output, '
-        'binary not startable} x site {response verify, assertion verify, both, request verify, metadata verify, response sign, assertion sign, request sign, encrypt, decrypt first key, '
-        'decrypt second key} x position {first, second, every invocation of that command in the operation} x document {valid, signature-corrupted}; enumerated in full, real subprocesses. '
+        'binary not startable} x site {response verify, assertion verify, both (SP requiring both, the response only, nothing), request verify, metadata verify, response sign, assertion sign, request sign, encrypt, decrypt first key, '
+        'decrypt second key} x position {first, second, every, every-from-the-second invocation of that command in the operation} x document {valid, signature-corrupted}; enumerated in full, real subprocesses. '
         'Non-trivial = the wrapper log shows the fault hit an invocation; distinct = distinct table row.')
 ASSUMPTIONS = ['faults that print a line that is exactly OK are outside the statement ("without reporting success") and are not in the plan',
                'a valid document may be accepted when only some of several verifications of the same signature are faulted (a later fault-free run verified it); judged rows: '
@@ -119,15 +119,16 @@ class Plan(object):
 
 
 def positions(pos):
-    return {'first': [1], 'second': [2], 'every': 'all'}[pos]
+    return {'first': [1], 'second': [2], 'every': 'all', 'from-second': list(range(2, 40))}[pos]
 
 
 def rows():
     out = []
-    for pos in ('first', 'second', 'every'):
+    for pos in ('first', 'second', 'every', 'from-second'):
         for bad in (False, True):
             for mode in VERIFY_MODES:
-                for site in ('response-verify', 'assertion-verify', 'both-verify', 'request-verify', 'metadata-verify', 'encrypted-assertion-verify'):
+                for site in ('response-verify', 'assertion-verify', 'both-verify', 'both-verify-response-required', 'both-verify-nothing-required', 'request-verify', 'metadata-verify',
+                             'encrypted-assertion-verify'):
                     out.append({'site': site, 'mode': mode, 'pos': pos, 'bad': bad})
         for mode in OUTPUT_MODES:
             for site in ('response-sign', 'assertion-sign', 'request-sign', 'encrypt'):
@@ -160,8 +161,10 @@ def run(case):
     clock.set_now(NOW)
     site, mode, pos, bad = case['site'], case['mode'], case['pos'], case['bad']
     label = '%s|%s|%s' % (site, pos, 'corrupted' if bad else 'valid')
-    if site.endswith('-verify') and site not in ('request-verify', 'metadata-verify'):
+    if (site.endswith('-verify') or site.startswith('both-verify')) and site not in ('request-verify', 'metadata-verify'):
         shape, sp, enc = {'response-verify': ('R', 'sp-r', None), 'assertion-verify': ('A', 'sp-a', None), 'both-verify': ('RA', 'sp-ra', None),
+                          # both signatures present, the SP configuration asks for one / none of them: the other one is still verified, and over several passes
+                          'both-verify-response-required': ('RA', 'sp-r', None), 'both-verify-nothing-required': ('RA', 'sp-none', None),
                           'encrypted-assertion-verify': ('A', 'sp-a', 2)}[site]
         doc = w['docs'][(shape, enc, bad)]
         with Plan('--verify', positions(pos), mode) as plan:
@@ -172,6 +175,9 @@ def run(case):
                 raise Violation('corrupted-accepted-under-fault', '%s: document with an invalid signature accepted while verification #%s was faulted with %s' % (site, pos, mode))
             if pos == 'every' and hits:
                 raise Violation('accepted-without-successful-verification', '%s: every --verify invocation was faulted with %s (%d hits), yet the response was accepted' % (site, mode, hits))
+            if pos == 'from-second' and hits and shape == 'RA':
+                raise Violation('accepted-without-successful-verification', '%s: the message carries two signatures, every --verify invocation after the first was faulted with %s (%d hits), '
+                                'yet the response was accepted' % (site, mode, hits))
         return label + '|' + v[0], bool(hits)
     if site == 'request-verify':
         enc = build.b64(w['req'][bad])
